@@ -16,15 +16,17 @@ def run(ctx):
     if ctx.thorough:
         ctx.tlc_mc(fam, "QueueWake", "QueueWake_MC_big.cfg", workers=16, timeout=3000, heap="16g")
         ctx.tlc_mc(fam, "QueueWake", "QueueWake_MC_live_big.cfg", workers=16, timeout=3000, heap="16g")
-    pdir, plans = ctx.tlc_plans(fam, "QueueWake_Gen", "QueueWake_Gen.cfg", num=ctx.q(220, 4000), depth=18)
-    ppdir, pplans = ctx.tlc_plans(fam, "PriWake_Gen", "PriWake_Gen.cfg", num=ctx.q(120, 2000), depth=22,
+        ctx.tlc_mc(fam, "PriWake", "PriWake_MC_big.cfg", workers=16, timeout=3000)
+    pdir, plans = ctx.tlc_plans(fam, "QueueWake_Gen", "QueueWake_Gen.cfg", num=ctx.q(300, 2500), depth=18)
+    ppdir, pplans = ctx.tlc_plans(fam, "PriWake_Gen", "PriWake_Gen.cfg", num=ctx.q(150, 1500), depth=22,
                                   sub="pplans", seed_off=1)
     binary = ctx.go_build("c13")
     ctx.harness(binary, ["-plans", pdir, "-pplans", ppdir, "-out", ctx.path("wake.ndjson"),
                          "-pout", ctx.path("priwake.ndjson"), "-stress", ctx.path("stress.ndjson"),
                          "-pstress", ctx.path("pstress.ndjson"), "-seed", ctx.seed,
-                         "-rand", ctx.q(70, 1500), "-prand", ctx.q(50, 1000), "-nstress", ctx.q(4, 120)],
-                traces=[ctx.path("wake.ndjson"), ctx.path("priwake.ndjson")])
+                         "-rand", ctx.q(100, 1000), "-prand", ctx.q(60, 600), "-nstress", ctx.q(4, 100)],
+                traces=[ctx.path("wake.ndjson"), ctx.path("priwake.ndjson"), ctx.path("stress.ndjson"),
+                        ctx.path("pstress.ndjson")])
     wake = ctx.load_traces(ctx.path("wake.ndjson"))
     pwake = ctx.load_traces(ctx.path("priwake.ndjson"))
     stress = ctx.load_traces(ctx.path("stress.ndjson"))
@@ -43,7 +45,7 @@ def run(ctx):
         kinds[t[0]["kind"]] = kinds.get(t[0]["kind"], 0) + 1
     ctx.extra["configurations"] = kinds
     ctx.assumptions += [
-        "global quiescence is read from runtime.Stack wait reasons (internal/qx); 'parked' = sync.Cond.Wait",
+        "global quiescence is read from runtime.Stack wait reasons (internal/qx); 'parked' = a consumer whose Pop has not returned at global quiescence (today: sync.Cond.Wait)",
         "which notified consumer runs first is left open: TLC searches the order of the Wake steps",
         "priq mid-call states are reached through verifGate (build tag verif) before tyrSignal in Push/Pop; "
         "item order is not part of this property (C12)",
